@@ -300,6 +300,13 @@ func (g *guardExpr) eval(child map[*types.Var]int64, own int64) (int64, bool) {
 		return own, false
 	case "const":
 		return g.k, false
+	case "add":
+		a, _ := g.x.eval(child, own)
+		b, _ := g.y.eval(child, own)
+		if g.op == token.SUB {
+			return a - b, false
+		}
+		return a + b, false
 	case "not":
 		_, b := g.x.eval(child, own)
 		return 0, !b
@@ -354,6 +361,11 @@ func buildGuard(v ssa.Value, recv ssa.Value, ownFn *ssa.Function) *guardExpr {
 			if a != nil && b != nil {
 				return &guardExpr{kind: "cmp", op: x.Op, x: a, y: b}
 			}
+		case token.ADD, token.SUB:
+			a, b := buildGuard(x.X, recv, ownFn), buildGuard(x.Y, recv, ownFn)
+			if a != nil && b != nil {
+				return &guardExpr{kind: "add", op: x.Op, x: a, y: b}
+			}
 		}
 	case *ssa.Call:
 		if x.Call.IsInvoke() && x.Call.Method.Name() == "Precedence" {
@@ -374,6 +386,10 @@ func buildGuard(v ssa.Value, recv ssa.Value, ownFn *ssa.Function) *guardExpr {
 // '(' under cond, then operand.WriteTo(cw), then ')' under cond — verified on its SSA form.
 type operandHelper struct {
 	opIdx, condIdx int
+	// second form: h(cw, operand, level int) parenthesises under `operand.Precedence() <cmp> level`
+	levelIdx int
+	cmp      token.Token
+	swapped  bool // the comparison is written level <cmp> operand.Precedence()
 }
 
 var operandHelperCache = map[*ssa.Function]*operandHelper{}
@@ -386,7 +402,7 @@ func operandHelperOf(f *ssa.Function, writeRune *ssa.Function) *operandHelper {
 		return h
 	}
 	operandHelperCache[f] = nil
-	h := &operandHelper{opIdx: -1, condIdx: -1}
+	h := &operandHelper{opIdx: -1, condIdx: -1, levelIdx: -1}
 	for i, p := range f.Params {
 		switch {
 		case namedIs(p.Type(), "ast", "Expression") || namedIs(p.Type(), "ast", "Node") || namedIs(p.Type(), "ast", "Statement"):
@@ -394,11 +410,41 @@ func operandHelperOf(f *ssa.Function, writeRune *ssa.Function) *operandHelper {
 		default:
 			if b, ok := p.Type().Underlying().(*types.Basic); ok && b.Kind() == types.Bool {
 				h.condIdx = i
+			} else if ok && b.Kind() == types.Int {
+				h.levelIdx = i
 			}
 		}
 	}
-	if h.opIdx < 0 || h.condIdx < 0 {
+	if h.opIdx < 0 || (h.condIdx < 0 && h.levelIdx < 0) {
 		return nil
+	}
+	// the condition that controls the parentheses: the bool parameter, or operand.Precedence() compared with the level
+	isCond := func(v ssa.Value) bool {
+		if h.condIdx >= 0 {
+			return v == ssa.Value(f.Params[h.condIdx])
+		}
+		bo, ok := v.(*ssa.BinOp)
+		if !ok {
+			return false
+		}
+		isPrec := func(x ssa.Value) bool {
+			call, ok := x.(*ssa.Call)
+			return ok && call.Call.IsInvoke() && call.Call.Method.Name() == "Precedence" && call.Call.Value == ssa.Value(f.Params[h.opIdx])
+		}
+		switch bo.Op {
+		case token.LSS, token.LEQ, token.GTR, token.GEQ:
+		default:
+			return false
+		}
+		switch {
+		case isPrec(bo.X) && bo.Y == ssa.Value(f.Params[h.levelIdx]):
+			h.cmp, h.swapped = bo.Op, false
+			return true
+		case isPrec(bo.Y) && bo.X == ssa.Value(f.Params[h.levelIdx]):
+			h.cmp, h.swapped = bo.Op, true
+			return true
+		}
+		return false
 	}
 	var open, closeC, child ssa.Instruction
 	okShape := true
@@ -421,7 +467,7 @@ func operandHelperOf(f *ssa.Function, writeRune *ssa.Function) *operandHelper {
 				return
 			}
 			iff, edge, ok := controllingIf(f, b)
-			if !ok || iff.Cond != ssa.Value(f.Params[h.condIdx]) || !edge {
+			if !ok || !isCond(iff.Cond) || !edge {
 				okShape = false
 				return
 			}
@@ -431,6 +477,9 @@ func operandHelperOf(f *ssa.Function, writeRune *ssa.Function) *operandHelper {
 				closeC = call
 			}
 			return
+		}
+		if call.Call.IsInvoke() && call.Call.Method.Name() == "Precedence" && call.Call.Value == ssa.Value(f.Params[h.opIdx]) && h.condIdx < 0 {
+			return // the level read of the second form
 		}
 		okShape = false // any other call: not a pure operand writer
 	})
@@ -642,8 +691,23 @@ func ruleParenGuards(c *Ctx, t *tables) {
 			if !ok || fa.X != ssa.Value(recv) {
 				return
 			}
-			cond := call.Call.Args[h.condIdx]
-			g := buildGuard(cond, recv, ownPrec)
+			var cond ssa.Value
+			var g *guardExpr
+			if h.condIdx >= 0 {
+				cond = call.Call.Args[h.condIdx]
+				g = buildGuard(cond, recv, ownPrec)
+			} else {
+				// operand.Precedence() <cmp> <level argument>, with the operand being this field
+				cond = call.Call.Args[h.levelIdx]
+				if lv := buildGuard(cond, recv, ownPrec); lv != nil {
+					child := &guardExpr{kind: "child", field: fieldOfAddr(fa)}
+					if h.swapped {
+						g = &guardExpr{kind: "cmp", op: h.cmp, x: lv, y: child}
+					} else {
+						g = &guardExpr{kind: "cmp", op: h.cmp, x: child, y: lv}
+					}
+				}
+			}
 			parens = append(parens, parenWrite{call: call, open: true, guard: g, cond: cond, edge: true, helper: true}, parenWrite{call: call, open: false, guard: g, cond: cond, edge: true, helper: true})
 			helperChild[fieldOfAddr(fa)] = append(helperChild[fieldOfAddr(fa)], call)
 		})
